@@ -452,6 +452,11 @@ pub fn gen_wio(rng: &mut Rng) -> RawCase {
     let ints = ["0", "1", "-1", "2", "3", "255", "256", "300", "32767", "40000", "-32768", "A%", "LEN(E$)"];
     let strs = ["\"\"", "\"a\"", "\"Hello\"", "E$", "F$", "CHR$(0)", "CHR$(13)", "SPACE$(3)", "STR$(A%)", "\"##.##\"", "\"\\  \\\"", "\"!\"", "\"#,###.#\"", "\"A=B\"", "\"A\"", "\"=B\"", "\"A=\" + CHR$(0)", "CHR$(0) + \"=1\""];
     let n = 2 + rng.below(14);
+    let mut dimno = 0;
+    if rng.chance(1, 40) {
+        // a whole array of STRING * n where an array of strings is expected
+        lines.push("DIM FB(1 TO 2) AS STRING * 5\nSArr FB()".into());
+    }
     for _ in 0..n {
         let h = *rng.pick(&["1", "2", "3", "4", "255"]);
         let i1 = *rng.pick(&ints);
@@ -478,7 +483,8 @@ pub fn gen_wio(rng: &mut Rng) -> RawCase {
             }
             format!("{}({})", f, a.join(", "))
         };
-        let pick = if rng.chance(1, 30) { 40 + rng.below(6) } else { let x = rng.below(56); if x >= 40 { x + 6 } else { x } };
+        let pick = if rng.chance(1, 30) { 40 + rng.below(6) } else { let x = rng.below(59); if x >= 40 { x + 6 } else { x } };
+        dimno += 1;
         let l = match pick {
             // block headers that fail: resuming must not enter the block half way
             50 => format!("FOR {} = 1 TO 1 / Z0%\nPRINT {}\nNEXT", rng.pick(&["A%", "C!"]), i1),
@@ -486,6 +492,18 @@ pub fn gen_wio(rng: &mut Rng) -> RawCase {
             52 => format!("SELECT CASE {} / Z0%\nCASE 1\nPRINT \"one\"\nCASE ELSE\nPRINT \"else\"\nEND SELECT", i1),
             53 => format!("IF {} / Z0% = 1 THEN\nPRINT \"then\"\nELSEIF 1 / Z0% = 2 THEN\nPRINT \"elseif\"\nELSE\nPRINT \"else\"\nEND IF", i1),
             61 => format!("IF A% = 77 THEN\nPRINT \"then\"\nELSEIF A% = {} THEN\nPRINT ({})\nGOTO {}\nELSE\nPRINT \"else\"\nEND IF", i1, call, rng.pick(&["Lb9", "Lb9", "NoSuchLabel", "InProc"])),
+            // array bounds are expressions too: ill-typed built-in calls, undefined functions
+            62 => format!(
+                "{} DX{}%({}{}({}))",
+                rng.pick(&["DIM", "REDIM"]),
+                dimno,
+                rng.pick(&["", "1 TO "]),
+                rng.pick(&["UCASE$", "LEN", "LTRIM$", "VAL", "STR$", "CHR$", "Twice", "Nope", "Nope$", "UBOUND"]),
+                rng.pick(&["5", "\"a\"", "A%", "E$", "AR%", "AR%(1)", "2"])
+            ),
+            // an undefined function with a string name, used where a string is required
+            63 => format!("PRINT {}(Nope{}$({})); LEN(Nope4$(1))", rng.pick(&["UCASE$", "LTRIM$", "LEN", "RTRIM$"]), rng.pick(&["", "2"]), i1),
+            64 => format!("{} = LEFT$(Nope3$({}), {}) + Nope5$", sv, i1, i2),
             54 => "Cnt".to_string(),
             55 => "Outer 2".to_string(),
             56 => format!("WHILE {} / Z0% = 1\nPRINT \"w\"\nEND\nWEND", i1),
@@ -555,6 +573,10 @@ pub fn gen_wio(rng: &mut Rng) -> RawCase {
     lines.push("END".into());
     if handler {
         lines.push("Hnd:".into());
+        if rng.chance(1, 12) {
+            // an error inside the handler itself: it ends the program, it is not trapped again
+            lines.push(rng.pick(&["Y9 = 1 / Z0%", "OPEN \"MISSING.TXT\" FOR INPUT AS #9", "PRINT AR%(9)"]).to_string());
+        }
         lines.push(rng.pick(&["RESUME NEXT", "RESUME NEXT", "PRINT \"E\"; ERR\nRESUME NEXT"]).to_string());
     }
     // a STATIC subprogram, also called from inside another subprogram
@@ -565,6 +587,9 @@ pub fn gen_wio(rng: &mut Rng) -> RawCase {
     lines.push("SUB Outer (N%)".into());
     lines.push("Cnt".into());
     lines.push("IF N% > 1 THEN Outer N% - 1".into());
+    lines.push("END SUB".into());
+    lines.push("SUB SArr (A$())".into());
+    lines.push("PRINT A$(1); \"|\"".into());
     lines.push("END SUB".into());
     lines.push("FUNCTION Twice(X)".into());
     lines.push("InProc:".into());
